@@ -11,9 +11,12 @@
 package c07
 
 import (
+	"bytes"
 	"encoding/base64"
 	"encoding/json"
 	"fmt"
+	"mime/multipart"
+	"net/http/httptest"
 	"net/url"
 	"slices"
 	"sort"
@@ -62,12 +65,17 @@ type family struct {
 	Pre    bool // exchanged in the initial state (with the initial registration of the client)
 }
 
+// callerDef = the credentials a caller sends through the channel of its
+// authentication method. The form parameter client_id is a separate dimension
+// (cid*) for every method; for the methods whose identity channel it is (id,
+// post) its default value is the caller's own id.
 type callerDef struct {
 	Name   string
-	Client string // the client the caller is (or claims to be)
-	Mode   string // basic | id | post | assert | anon
-	Secret string
-	Authed string // yes | no | either
+	Client string // the client the caller is (or claims to be) through the method's own channel
+	Mode   string // basic | id | post | assert | assert-notype | anon
+	Secret string // secret, or "keyname/kid" of the key the assertion is signed with
+	Assert string // second credential in the same request: assertion "client|keyname/kid" ("" = none)
+	Authed string // yes | no | either: declared expectation for the default request shape; cross-checked against the model (candidates) at start
 }
 
 type scopeDef struct {
@@ -80,6 +88,37 @@ type alphabet struct {
 	Callers []callerDef
 	Scopes  []scopeDef
 	Missing bool // also present a request without refresh_token parameter
+
+	// request shape: every (token, caller, scope list) is sent in the default shape (parameters
+	// in the body, form client_id as the method prescribes); every (token, caller) is also sent
+	// in every non-default shape with the scope lists named in Lite.
+	Cids  []string // form client_id values besides the method's default: absent | own | owner | unknown | other
+	Chans []string // parameter channels besides "body": gtq | query | get | gtmix | multipart
+	Pairs bool     // true: full product Cids x Chans; false: one of the two deviates at a time
+	Lite  []string // names of the scope lists combined with non-default shapes
+	Lapse []string // clients whose refresh-grant registration can be withdrawn in mid-history (operation lapse|<client>)
+}
+
+const (
+	cidDefault = "-" // the form client_id the authentication method prescribes (absent for basic/assert/anon, own for id/post)
+	chanBody   = "body"
+)
+
+var (
+	cidsQuick     = []string{"absent", "own", "owner", "unknown"}
+	cidsThorough  = []string{"absent", "own", "owner", "unknown", "other"}
+	chansQuick    = []string{"gtq", "query"}
+	chansThorough = []string{"gtq", "query", "get", "gtmix", "multipart"}
+	liteScopes    = []string{"absent", "S0+phone"}
+)
+
+// chanTag names a parameter channel in rules and signatures.
+var chanTag = map[string]string{
+	"gtq":       "gt-query",  // grant_type in the URL query, everything else in the body
+	"query":     "all-query", // POST, every parameter in the URL query, no body
+	"get":       "get",       // GET, every parameter in the URL query
+	"gtmix":     "gt-mix",    // body complete (grant_type=refresh_token), URL query says grant_type=authorization_code
+	"multipart": "multipart", // POST multipart/form-data body
 }
 
 func famsQuick() []family {
@@ -104,7 +143,45 @@ func famsWide() []family {
 		{Name: "jwt", Client: "jwt", User: "u1", Scopes: s0, Pre: true},
 		{Name: "jlapsed", Client: "jlapsed", User: "u1", Scopes: "openid profile offline_access", Pre: true},
 		{Name: "pub", Client: "pub", User: "u2", Scopes: "openid profile offline_access", Pre: true},
+		{Name: "plapsed", Client: "plapsed", User: "u2", Scopes: "openid offline_access", Pre: true}, // public client whose registration lapsed
 	}
+}
+
+// famsLapse: the thorough tier's third exploration. Small grants (short scope
+// chains), every client kind once; the registration of each of them can be
+// withdrawn at any point of the history.
+func famsLapse() []family {
+	return []family{
+		{Name: "web", Client: "web", User: "u1", Scopes: "openid email offline_access", Pre: true},
+		{Name: "jwt", Client: "jwt", User: "u1", Scopes: "openid offline_access", Pre: true},
+		{Name: "pub", Client: "pub", User: "u2", Scopes: "openid offline_access", Pre: true},
+	}
+}
+
+func callersLapse() []callerDef {
+	return []callerDef{
+		{Name: "web", Client: "web", Mode: "basic", Secret: "secret-web", Authed: "yes"},
+		{Name: "web-idonly", Client: "web", Mode: "id", Authed: "no"},
+		{Name: "web2", Client: "web2", Mode: "basic", Secret: "secret-web2", Authed: "yes"},
+		{Name: "pub", Client: "pub", Mode: "id", Authed: "yes"},
+		{Name: "jwt", Client: "jwt", Mode: "assert", Secret: "p256b/jk2", Authed: "yes"},
+	}
+}
+
+func scopesLapse() []scopeDef {
+	return []scopeDef{
+		{"absent", "-"},
+		{"o", "openid"},
+		{"off", "offline_access"},
+		{"e", "email"},
+		{"S0+phone", s0 + " phone"},
+	}
+}
+
+func callersWide() []callerDef {
+	return append(callersThorough(),
+		callerDef{Name: "plapsed", Client: "plapsed", Mode: "id", Authed: "yes"},
+	)
 }
 
 func callersQuick() []callerDef {
@@ -129,6 +206,10 @@ func callersThorough() []callerDef {
 		callerDef{Name: "jwt-badsig", Client: "jwt", Mode: "assert", Secret: "p256a/jk2", Authed: "no"}, // signed with a key the client never registered
 		callerDef{Name: "jwt-idonly", Client: "jwt", Mode: "id", Authed: "no"},
 		callerDef{Name: "webjwt", Client: "webjwt", Mode: "basic", Secret: "secret-webjwt", Authed: "yes"},
+		callerDef{Name: "pub-basic", Client: "pub", Mode: "basic", Secret: "", Authed: "either"},                                     // public client identified through the Authorization header
+		callerDef{Name: "pub-junksecret", Client: "pub", Mode: "post", Secret: "junk", Authed: "either"},                             // public client sending a secret nobody registered
+		callerDef{Name: "jwt-notype", Client: "jwt", Mode: "assert-notype", Secret: "p256b/jk2", Authed: "either"},                   // valid assertion, client_assertion_type missing
+		callerDef{Name: "web2+jwt", Client: "web2", Mode: "basic", Secret: "secret-web2", Assert: "jwt|p256b/jk2", Authed: "either"}, // two valid credentials of two clients in one request
 	)
 }
 
@@ -186,15 +267,16 @@ type famState struct {
 }
 
 type state struct {
-	St   *refstore.State
-	Fam  []famState
-	Auto map[string]*rtInfo // reference automaton, keyed by refresh token
+	St     *refstore.State
+	Fam    []famState
+	Auto   map[string]*rtInfo // reference automaton, keyed by refresh token
+	Lapsed []string           // clients whose refresh-grant registration was withdrawn during the history (sorted)
 
 	canon string // memo; states are immutable once published and Canon runs on one goroutine
 }
 
 func (s *state) clone() *state {
-	n := &state{St: s.St.Clone(), Fam: slices.Clone(s.Fam), Auto: make(map[string]*rtInfo, len(s.Auto))}
+	n := &state{St: s.St.Clone(), Fam: slices.Clone(s.Fam), Auto: make(map[string]*rtInfo, len(s.Auto)), Lapsed: slices.Clone(s.Lapsed)}
 	for k, v := range s.Auto {
 		n.Auto[k] = v.clone()
 	}
@@ -258,6 +340,9 @@ func config(lapsedHasRefresh bool) *refstore.Config {
 		AppType: op.ApplicationTypeWeb, Method: oidc.AuthMethodPrivateKeyJWT,
 		RespTypes: []oidc.ResponseType{oidc.ResponseTypeCode}, Grants: slices.Clone(g),
 		Keys: map[string]*jose.JSONWebKey{"lk1": rig.PubJWK(keys.Get("p256c"), "lk1")}}
+	cfg.Clients["plapsed"] = &refstore.Client{ID: "plapsed", Redirects: []string{"https://rp.example/cb"},
+		AppType: op.ApplicationTypeNative, Method: oidc.AuthMethodNone,
+		RespTypes: []oidc.ResponseType{oidc.ResponseTypeCode}, Grants: slices.Clone(g)}
 	return cfg
 }
 
@@ -351,23 +436,103 @@ func (p *part) ops(s *state) []string {
 			out = append(out, "code|"+f.Name)
 		}
 	}
-	var toks []string
+	for _, c := range p.A.Lapse {
+		if !slices.Contains(s.Lapsed, c) {
+			out = append(out, "lapse|"+c)
+		}
+	}
+	type tokRef struct{ ref, owner string }
+	var toks []tokRef
 	for i, f := range p.A.Fams {
 		if s.Fam[i].Cur != "" {
-			toks = append(toks, f.Name+".cur")
+			toks = append(toks, tokRef{f.Name + ".cur", f.Client})
 		}
 		if s.Fam[i].Old != "" {
-			toks = append(toks, f.Name+".old")
+			toks = append(toks, tokRef{f.Name + ".old", f.Client})
 		}
 	}
-	toks = append(toks, "unknown")
+	toks = append(toks, tokRef{"unknown", ""})
 	if p.A.Missing {
-		toks = append(toks, "missing")
+		toks = append(toks, tokRef{"missing", ""})
 	}
 	for _, t := range toks {
-		for _, c := range p.A.Callers {
+		for ci := range p.A.Callers {
+			c := &p.A.Callers[ci]
 			for _, sc := range p.A.Scopes {
-				out = append(out, "refresh|"+t+"|"+c.Name+"|"+sc.Name)
+				out = append(out, "refresh|"+t.ref+"|"+c.Name+"|"+sc.Name)
+			}
+			for _, sh := range p.shapes(c, t.owner) {
+				lite := p.A.Lite
+				if sh[0] != cidDefault && sh[1] != chanBody {
+					lite = lite[:1] // both deviate (thorough): with the scope list that keeps the grant only
+				}
+				for _, sc := range lite {
+					out = append(out, "refresh|"+t.ref+"|"+c.Name+"|"+sc+"|"+sh[0]+"|"+sh[1])
+				}
+			}
+		}
+	}
+	return out
+}
+
+// defaultCid: the form client_id the authentication method itself prescribes.
+func defaultCid(mode string) string {
+	if mode == "id" || mode == "post" {
+		return "own"
+	}
+	return "absent"
+}
+
+// cidValue resolves a form client_id class for a caller and the owner of the
+// presented token ("" = the token has no owner). ok=false: the class does not
+// exist for this combination.
+func cidValue(cid string, c *callerDef, owner string) (val string, present, ok bool) {
+	if cid == cidDefault {
+		cid = defaultCid(c.Mode)
+	}
+	switch cid {
+	case "absent":
+		return "", false, true
+	case "own":
+		return c.Client, true, c.Client != ""
+	case "owner":
+		return owner, true, owner != ""
+	case "unknown":
+		return "ghost", true, true
+	case "other": // a registered client that is neither the caller nor the owner
+		for _, o := range []string{"web2", "post", "web"} {
+			if o != c.Client && o != owner {
+				return o, true, true
+			}
+		}
+	}
+	return "", false, false
+}
+
+// shapes lists the non-default request shapes (cid class, channel) for one
+// caller and token owner; classes that resolve to the same form client_id as an
+// earlier one (e.g. owner == own) are listed once.
+func (p *part) shapes(c *callerDef, owner string) [][2]string {
+	dv, dp, _ := cidValue(cidDefault, c, owner)
+	seen := map[string]bool{fmt.Sprint(dp, dv): true}
+	var cids []string
+	for _, cid := range p.A.Cids {
+		v, pr, ok := cidValue(cid, c, owner)
+		if !ok || seen[fmt.Sprint(pr, v)] {
+			continue
+		}
+		seen[fmt.Sprint(pr, v)] = true
+		cids = append(cids, cid)
+	}
+	var out [][2]string
+	for _, cid := range cids {
+		out = append(out, [2]string{cid, chanBody})
+	}
+	for _, ch := range p.A.Chans {
+		out = append(out, [2]string{cidDefault, ch})
+		if p.A.Pairs {
+			for _, cid := range cids {
+				out = append(out, [2]string{cid, ch})
 			}
 		}
 	}
@@ -395,6 +560,10 @@ func (p *part) newStep(int) func(*state, string) (*state, engine.Result) {
 		ns := s.clone()
 		var res engine.Result
 		w.advanced = false
+		// the worker's rig has its own configuration: bring the registrations to what this state says
+		for _, c := range p.A.Lapse {
+			setRefreshGrant(w.r.Core.Cfg.Clients[c], !slices.Contains(s.Lapsed, c))
+		}
 		pan := engine.Bubble(p.t, stepOffset, func() { res = w.exec(ns, op) })
 		if pan != "" {
 			p.c.Internal(fmt.Sprintf("%s: harness panic in op %s: %s", p.name(), op, pan))
@@ -425,10 +594,37 @@ func (w *worker) exec(s *state, op string) engine.Result {
 		w.r.Core.Reset(s.St)
 		return w.p.doCode(w.r, s, i, &w.advanced)
 	case "refresh":
-		return w.doRefresh(s, f[1], f[2], f[3])
+		cid, ch := cidDefault, chanBody
+		if len(f) >= 6 {
+			cid, ch = f[4], f[5]
+		}
+		if len(f) < 4 {
+			break
+		}
+		return w.doRefresh(s, f[1], f[2], f[3], cid, ch)
+	case "lapse":
+		// the registration of a client is edited between two requests: it keeps its tokens and loses
+		// the refresh grant (no request is made; newStep applies the registration of the state)
+		if len(f) != 2 || !slices.Contains(w.p.A.Lapse, f[1]) || slices.Contains(s.Lapsed, f[1]) {
+			break
+		}
+		s.Lapsed = append(s.Lapsed, f[1])
+		sort.Strings(s.Lapsed)
+		w.advanced = true
+		return engine.OK("op:lapse", "registration-withdrawn")
 	}
 	w.p.c.Internal("bad op " + op)
 	return engine.OK("internal", "bad-op")
+}
+
+func setRefreshGrant(cl *refstore.Client, on bool) {
+	has := slices.Contains(cl.Grants, oidc.GrantTypeRefreshToken)
+	switch {
+	case on && !has:
+		cl.Grants = append(slices.Clone(cl.Grants), oidc.GrantTypeRefreshToken)
+	case !on && has:
+		cl.Grants = slices.DeleteFunc(slices.Clone(cl.Grants), func(g oidc.GrantType) bool { return g == oidc.GrantTypeRefreshToken })
+	}
 }
 
 // observation of one token response
@@ -478,7 +674,7 @@ func (p *part) doCode(r *rig.Rig, s *state, i int, advanced *bool) engine.Result
 	f := p.A.Fams[i]
 	extra := url.Values{}
 	switch f.Client {
-	case "pub":
+	case "pub", "plapsed":
 		extra.Set("code_verifier", verifier)
 	case "jwt", "jlapsed":
 		extra.Set("client_assertion_type", oidc.ClientAssertionTypeJWTAssertion)
@@ -547,7 +743,188 @@ func audOf(v any) []string {
 	return nil
 }
 
-func (w *worker) doRefresh(s *state, tokRef, callerName, scopeName string) engine.Result {
+// credentials is what one request says about who sends it, channel by channel.
+type credentials struct {
+	hasHdr           bool
+	hdrID, hdrSecret string
+	hasFormID        bool
+	formID           string
+	hasFormSecret    bool
+	formSecret       string
+	hasAssert        bool
+	assertClient     string
+	assertKey        string // "keyname/kid" the assertion is signed with
+	assertTyped      bool   // client_assertion_type sent
+}
+
+// candidates is the reference reading of "authenticated, or public and
+// identified": the set of registered clients the request carries a proof for
+// ("yes": through the client's registered method; "either": a correct proof
+// through a channel the statement leaves open — DESIGN §1.6), and whether the
+// request names more than one client. A form client_id alone is a proof only for
+// a public client; it never is one for a confidential client.
+func candidates(cfg *refstore.Config, cr credentials) (cands map[string]string, contradictory bool) {
+	cands = map[string]string{}
+	add := func(id, how string) {
+		if cands[id] != "yes" {
+			cands[id] = how
+		}
+	}
+	claimed := map[string]bool{}
+	if cr.hasHdr {
+		claimed[cr.hdrID] = true
+		if cl := cfg.Clients[cr.hdrID]; cl != nil {
+			switch cl.Method {
+			case oidc.AuthMethodNone:
+				add(cr.hdrID, "either")
+			case oidc.AuthMethodBasic:
+				if cl.Secret != "" && cl.Secret == cr.hdrSecret {
+					add(cr.hdrID, "yes")
+				}
+			case oidc.AuthMethodPost:
+				if cl.Secret != "" && cl.Secret == cr.hdrSecret {
+					add(cr.hdrID, "either")
+				}
+			}
+		}
+	}
+	if cr.hasFormID {
+		claimed[cr.formID] = true
+		if cl := cfg.Clients[cr.formID]; cl != nil {
+			switch cl.Method {
+			case oidc.AuthMethodNone:
+				if cr.hasFormSecret {
+					add(cr.formID, "either")
+				} else {
+					add(cr.formID, "yes")
+				}
+			case oidc.AuthMethodPost:
+				if cr.hasFormSecret && cl.Secret != "" && cl.Secret == cr.formSecret {
+					add(cr.formID, "yes")
+				}
+			case oidc.AuthMethodBasic:
+				if cr.hasFormSecret && cl.Secret != "" && cl.Secret == cr.formSecret {
+					add(cr.formID, "either")
+				}
+			}
+		}
+	}
+	if cr.hasAssert {
+		claimed[cr.assertClient] = true
+		if cl := cfg.Clients[cr.assertClient]; cl != nil && cl.Method == oidc.AuthMethodPrivateKeyJWT && assertKey[cr.assertClient] == cr.assertKey {
+			if cr.assertTyped {
+				add(cr.assertClient, "yes")
+			} else {
+				add(cr.assertClient, "either")
+			}
+		}
+	}
+	return cands, len(claimed) > 1
+}
+
+// buildRequest assembles the parameters and credentials of one refresh request.
+func buildRequest(cd *callerDef, cid, owner, tok string, hasTok bool, scope string) (params url.Values, auth string, cr credentials, ok bool) {
+	params = url.Values{"grant_type": {"refresh_token"}}
+	if hasTok {
+		params.Set("refresh_token", tok)
+	}
+	if scope != "-" {
+		params.Set("scope", scope)
+	}
+	assert := func(client, key string, typed bool) {
+		if typed {
+			params.Set("client_assertion_type", oidc.ClientAssertionTypeJWTAssertion)
+		}
+		params.Set("client_assertion", assertion(client, key))
+		cr.hasAssert, cr.assertClient, cr.assertKey, cr.assertTyped = true, client, key, typed
+	}
+	switch cd.Mode {
+	case "basic":
+		auth = rig.Basic(cd.Client, cd.Secret)
+		cr.hasHdr, cr.hdrID, cr.hdrSecret = true, cd.Client, cd.Secret
+	case "post":
+		params.Set("client_secret", cd.Secret)
+		cr.hasFormSecret, cr.formSecret = true, cd.Secret
+	case "assert":
+		assert(cd.Client, cd.Secret, true)
+	case "assert-notype":
+		assert(cd.Client, cd.Secret, false)
+	case "id", "anon":
+	default:
+		return nil, "", cr, false
+	}
+	if cd.Assert != "" {
+		cl, key, _ := strings.Cut(cd.Assert, "|")
+		assert(cl, key, true)
+	}
+	v, present, ok := cidValue(cid, cd, owner)
+	if !ok {
+		return nil, "", cr, false
+	}
+	if present {
+		params.Set("client_id", v)
+		cr.hasFormID, cr.formID = true, v
+	}
+	return params, auth, cr, true
+}
+
+// send performs the request through the given parameter channel.
+func (w *worker) send(ch string, params url.Values, auth string) *rig.Resp {
+	hdr := map[string]string{}
+	if auth != "" {
+		hdr["Authorization"] = auth
+	}
+	const path = "/oauth/token"
+	router := w.p.Router
+	switch ch {
+	case chanBody:
+		return w.r.Do(router, rig.Req("POST", path, params, hdr))
+	case "gtq":
+		body := url.Values{}
+		for k, v := range params {
+			if k != "grant_type" {
+				body[k] = v
+			}
+		}
+		return w.r.Do(router, rig.Req("POST", path+"?grant_type="+url.QueryEscape(params.Get("grant_type")), body, hdr))
+	case "query":
+		return w.r.Do(router, rig.Req("POST", path+"?"+params.Encode(), nil, hdr))
+	case "get":
+		return w.r.Do(router, rig.Req("GET", path, params, hdr))
+	case "gtmix":
+		return w.r.Do(router, rig.Req("POST", path+"?grant_type="+url.QueryEscape(string(oidc.GrantTypeCode)), params, hdr))
+	case "multipart":
+		var buf bytes.Buffer
+		mw := multipart.NewWriter(&buf)
+		mw.SetBoundary("c07-boundary-c07-boundary")
+		for _, k := range refstore.SortedKeys(params) {
+			for _, v := range params[k] {
+				mw.WriteField(k, v)
+			}
+		}
+		mw.Close()
+		req := httptest.NewRequest("POST", "https://"+rig.Host+path, &buf)
+		req.Header.Set("Content-Type", mw.FormDataContentType())
+		for k, v := range hdr {
+			req.Header.Set(k, v)
+		}
+		return w.r.Do(router, req)
+	}
+	return nil
+}
+
+func shapeTag(cd *callerDef, cid, ch string) string {
+	var t []string
+	if cid != cidDefault && cid != defaultCid(cd.Mode) {
+		t = append(t, "cid-"+cid)
+	}
+	if ch != chanBody {
+		t = append(t, chanTag[ch])
+	}
+	return strings.Join(t, "+")
+}
+
+func (w *worker) doRefresh(s *state, tokRef, callerName, scopeName, cid, ch string) engine.Result {
 	p := w.p
 	var cd *callerDef
 	for i := range p.A.Callers {
@@ -561,8 +938,8 @@ func (w *worker) doRefresh(s *state, tokRef, callerName, scopeName string) engin
 			sd = &p.A.Scopes[i]
 		}
 	}
-	if cd == nil || sd == nil {
-		p.c.Internal("bad refresh op: " + callerName + " " + scopeName)
+	if cd == nil || sd == nil || (ch != chanBody && chanTag[ch] == "") {
+		p.c.Internal("bad refresh op: " + callerName + " " + scopeName + " " + cid + " " + ch)
 		return engine.OK("internal", "bad-op")
 	}
 	// presented token
@@ -585,8 +962,36 @@ func (w *worker) doRefresh(s *state, tokRef, callerName, scopeName string) engin
 		}
 	}
 	info := s.Auto[tok]
+	owner := ""
+	if fam >= 0 {
+		owner = p.A.Fams[fam].Client
+	}
+	if info != nil && info.Client != owner {
+		p.c.Internal("automaton and family disagree about the owner of " + tokRef)
+		return engine.OK("internal", "bad-op")
+	}
+
+	// ---- the request ----
+	params, auth, cr, ok := buildRequest(cd, cid, owner, tok, tokRef != "missing", sd.Value)
+	if !ok {
+		p.c.Internal("refresh op with a request shape that does not exist: " + callerName + " " + cid + " " + tokRef)
+		return engine.OK("internal", "bad-op")
+	}
+	tag := shapeTag(cd, cid, ch)
+	mode := cd.Mode
+	if cd.Assert != "" {
+		mode += "+assert"
+	}
+	sigShape := "auth-" + mode
+	if tag != "" {
+		sigShape += "+" + tag
+	}
 
 	// ---- expectation, from the statement ----
+	// The caller is the AUTHENTICATED identity (for a public client the identified one): cands. What
+	// the request merely says about its sender (a form client_id next to other credentials) may get it
+	// refused, or be ignored, but never makes the named client the caller.
+	cands, contradictory := candidates(w.r.Core.Cfg, cr)
 	requested := []string(nil)
 	if sd.Value != "-" {
 		requested = strings.Fields(sd.Value)
@@ -615,13 +1020,17 @@ func (w *worker) doRefresh(s *state, tokRef, callerName, scopeName string) engin
 			scopeClass, scopeBad = "superset", true
 		}
 	}
+	anyRegistered := false
+	for c := range cands {
+		anyRegistered = anyRegistered || p.clientRegistered(w.r, c)
+	}
 	reason := ""
 	switch {
 	case !p.RefreshOn:
 		reason = "disabled"
-	case cd.Authed == "no":
+	case len(cands) == 0:
 		reason = "unauthenticated"
-	case !p.clientRegistered(w.r, cd.Client):
+	case !anyRegistered:
 		reason = "grant-not-registered"
 	case tokRef == "missing":
 		reason = "missing-token"
@@ -629,54 +1038,41 @@ func (w *worker) doRefresh(s *state, tokRef, callerName, scopeName string) engin
 		reason = "unknown-token"
 	case !info.Live:
 		reason = "rotated-token"
-	case info.Client != cd.Client:
+	case cands[info.Client] == "":
 		reason = "foreign-client"
+	case !p.clientRegistered(w.r, info.Client):
+		reason = "grant-not-registered"
 	case scopeBad:
 		reason = "scope-" + scopeClass
 	}
-	either := reason == "" && (cd.Authed == "either" || scopeOpen)
+	// a plain request of the owner: its registered method, nothing contradictory, parameters in the body
+	plain := info != nil && cands[info.Client] == "yes" && !contradictory && ch == chanBody
+	either := reason == "" && (!plain || scopeOpen)
 	// the exact error code is demanded only where the statement names it: scope is the sole defect
 	// and the requested list is not a subset of what this very token was originally granted.
-	wantInvalidScope := (reason == "scope-superset" || reason == "scope-disjoint") && cd.Authed == "yes"
+	wantInvalidScope := (reason == "scope-superset" || reason == "scope-disjoint") && plain
 
 	// ---- one real request ----
-	form := url.Values{"grant_type": {"refresh_token"}}
-	if tokRef != "missing" {
-		form.Set("refresh_token", tok)
-	}
-	if sd.Value != "-" {
-		form.Set("scope", sd.Value)
-	}
-	auth := ""
-	switch cd.Mode {
-	case "basic":
-		auth = rig.Basic(cd.Client, cd.Secret)
-	case "id":
-		form.Set("client_id", cd.Client)
-	case "post":
-		form.Set("client_id", cd.Client)
-		form.Set("client_secret", cd.Secret)
-	case "assert":
-		form.Set("client_assertion_type", oidc.ClientAssertionTypeJWTAssertion)
-		form.Set("client_assertion", assertion(cd.Client, cd.Secret))
-	case "anon":
-	}
 	w.r.Core.Reset(s.St)
 	before := refstore.SortedKeys(s.St.Refreshes)
-	resp := w.r.Token(p.Router, form, auth)
+	resp := w.send(ch, params, auth)
 	o := observe(w.r, resp)
 	rtr := p.router()
 
 	describe := func() string {
-		return fmt.Sprintf("token=%s caller=%s scope=%q (class %s) -> %d %s %s; journal creates=%v; model=%+v",
-			tokRef, cd.Name, sd.Value, scopeClass, resp.Status, strings.TrimSpace(string(resp.Body)), resp.Panic, o.creates, info)
+		return fmt.Sprintf("token=%s caller=%s form-client_id=%s channel=%s scope=%q (class %s) -> %d %s %s; journal creates=%v; authenticated=%v contradictory=%t; model=%+v",
+			tokRef, cd.Name, map[bool]string{true: cr.formID, false: "<absent>"}[cr.hasFormID], ch, sd.Value, scopeClass,
+			resp.Status, strings.TrimSpace(string(resp.Body)), resp.Panic, o.creates, cands, contradictory, info)
 	}
 
 	// ---- must refuse ----
 	if reason != "" {
 		rule := "refuse:" + reason
+		if tag != "" {
+			rule += "@" + tag
+		}
 		if o.served || o.leak {
-			return engine.Bad(rule, o.class, "C07/served-"+reason+"/"+rtr+"/auth-"+cd.Mode, describe())
+			return engine.Bad(rule, o.class, "C07/served-"+reason+"/"+rtr+"/"+sigShape, describe())
 		}
 		if len(o.creates) > 0 {
 			return engine.Bad(rule, o.class, "C07/storage-create-on-refusal/"+rtr+"/"+reason, describe())
@@ -688,13 +1084,18 @@ func (w *worker) doRefresh(s *state, tokRef, callerName, scopeName string) engin
 	}
 
 	// ---- must serve (or either) ----
-	rule := "serve:" + scopeClass + ":" + cd.Client
-	if either {
+	rule := "serve:" + scopeClass + ":" + info.Client
+	switch {
+	case either && tag != "":
+		rule = "either@" + tag
+	case either:
 		rule = "either:" + scopeClass + ":" + cd.Name
+	case tag != "":
+		rule += "@" + tag
 	}
 	if !o.served {
 		if o.leak {
-			return engine.Bad(rule, o.class, "C07/token-in-error-response/"+rtr+"/auth-"+cd.Mode, describe())
+			return engine.Bad(rule, o.class, "C07/token-in-error-response/"+rtr+"/"+sigShape, describe())
 		}
 		if len(o.creates) > 0 {
 			return engine.Bad(rule, o.class, "C07/storage-create-on-refusal/"+rtr+"/owner", describe())
@@ -867,22 +1268,51 @@ func (p *part) canon(s *state) string {
 		}
 		b.WriteString(";")
 	}
-	fmt.Fprintf(&b, "n=%d/%d/%d/%d", len(s.St.Refreshes), len(s.St.Tokens), len(s.St.AuthReqs), len(s.St.Codes))
+	fmt.Fprintf(&b, "lapsed=%v;n=%d/%d/%d/%d", s.Lapsed, len(s.St.Refreshes), len(s.St.Tokens), len(s.St.AuthReqs), len(s.St.Codes))
 	s.canon = b.String()
 	return s.canon
 }
 
 // ---------------------------------------------------------------------------
 
+// checkCallers cross-checks the declared expectation of every caller (default
+// request shape) against the reference reading of "authenticated" (candidates),
+// so that a slip in either shows up as an internal error, not as a verdict.
+func checkCallers(c *engine.Check, cfg *refstore.Config, callers []callerDef) {
+	for i := range callers {
+		cd := &callers[i]
+		_, _, cr, ok := buildRequest(cd, cidDefault, "", "x", true, "-")
+		if !ok {
+			c.Internal("caller " + cd.Name + ": unknown mode " + cd.Mode)
+			continue
+		}
+		cands, contra := candidates(cfg, cr)
+		got := "either"
+		switch {
+		case len(cands) == 0:
+			got = "no"
+		case len(cands) == 1 && cands[cd.Client] == "yes" && !contra:
+			got = "yes"
+		}
+		if got != cd.Authed {
+			c.Internal(fmt.Sprintf("caller %s declared authenticated=%s, reference reading says %s (%v)", cd.Name, cd.Authed, got, cands))
+		}
+	}
+}
+
 func TestCheck(t *testing.T) {
 	c := engine.Start(t, "C07")
-	c.SetRule("E2: breadth-first over histories of real token requests (code exchanges, then refresh requests over " +
-		"{presented token} x {caller} x {scope list}); every transition = one request on the real token endpoint, judged on " +
-		"response + storage journal + resulting storage records by a reference automaton rt -> (client, granted, sub, aud, auth_time, live); " +
+	c.SetRule("E2: breadth-first over histories of real token requests (code exchanges, withdrawals of a client's refresh-grant registration, " +
+		"refresh requests over {presented token} x {caller: authentication method + credentials} x {scope list} in the plain request shape, and over " +
+		"{presented token} x {caller} x {form client_id: absent, own, token owner's, unknown, other} x {parameter channel: body, grant_type in query, all in query, ...} " +
+		"with a scope list that keeps and one that exceeds the grant); every transition = one request on the real token endpoint, judged on " +
+		"response + storage journal + resulting storage records by a reference automaton rt -> (client, granted, sub, aud, auth_time, live) and a reference " +
+		"reading of 'authenticated client' (set of clients the request proves to be; a form client_id proves nothing for a confidential client); " +
 		"parts = router x {refresh grant supported, not supported}; distinct = (part, oracle rule, observed outcome class)")
 	c.Assume("refstore (the rig's storage) implements the storage contract: rotation in CreateAccessAndRefreshTokens, the new refresh token stores the request's current scopes",
-		"client 'lapsed' obtained its refresh token while registered for the refresh grant and is not registered for it during the history (models a changed registration)",
-		"secret of a basic-registered client sent in the body, and 'scope=' present but empty, are judged Either",
+		"clients 'lapsed' / 'jlapsed' / 'plapsed' obtained their refresh token while registered for the refresh grant and are not registered for it during the history; operation lapse|<client> withdraws the registration of a client in mid-history (the registration is edited between two requests)",
+		"secret of a basic-registered client sent in the body, a public client identified through the Authorization header or sending a secret, an assertion without client_assertion_type, and 'scope=' present but empty, are judged Either",
+		"a request that names two different clients (credentials of one, form client_id or second credential of another) and a request whose parameters travel outside the form body may be refused or honoured (Either) when the token's owner is among the clients it proves to be; it must be refused when the owner is not; parameters in the URL query are either not honoured at all or honoured like body parameters",
 		"on success the new tokens must carry exactly the requested scope set (reading of 'narrowed scope for this issuance'); order and duplicates are ignored",
 		"signature of the ID token is not checked here (C06); expiry of refresh tokens is not in the alphabet (C08)")
 	type run struct {
@@ -894,19 +1324,28 @@ func TestCheck(t *testing.T) {
 	// MaxDepth is a safety bound only: with these alphabets the canonical state space is finite and
 	// the search runs until the frontier is empty (depth_completed / frontier_left in the evidence),
 	// i.e. histories of every length over the alphabet are covered.
-	runs := []run{{"", alphabet{Fams: famsQuick(), Callers: callersQuick(), Scopes: scopesQuick()}, 12, true}}
+	runs := []run{{"", alphabet{Fams: famsQuick(), Callers: callersQuick(), Scopes: scopesQuick(),
+		Cids: cidsQuick, Chans: chansQuick, Lite: liteScopes}, 12, true}}
 	if c.Thorough() {
 		runs = []run{
-			// superset of the quick alphabet: more callers, more scope lists, request without refresh_token
-			{"", alphabet{Fams: famsQuick(), Callers: callersThorough(), Scopes: scopesThorough(), Missing: true}, 16, true},
+			// superset of the quick alphabet: more callers, more scope lists, request without refresh_token,
+			// full product form client_id x channel, more channels
+			{"", alphabet{Fams: famsQuick(), Callers: callersThorough(), Scopes: scopesThorough(), Missing: true,
+				Cids: cidsThorough, Chans: chansThorough, Pairs: true, Lite: liteScopes}, 16, true},
 			// other client kinds as token owners, from an all-redeemed initial state
-			{"/wide", alphabet{Fams: famsWide(), Callers: callersThorough(), Scopes: scopesThorough(), Missing: true}, 16, false},
+			{"/wide", alphabet{Fams: famsWide(), Callers: callersWide(), Scopes: scopesThorough(), Missing: true,
+				Cids: cidsThorough, Chans: chansThorough, Lite: liteScopes}, 16, false},
+			// every client kind once with a small grant; each registration can be withdrawn at any point of the history
+			{"/lapse", alphabet{Fams: famsLapse(), Callers: callersLapse(), Scopes: scopesLapse(),
+				Cids: cidsQuick, Chans: chansQuick, Lite: liteScopes, Lapse: []string{"web", "jwt", "pub"}}, 16, false},
 		}
 	}
 	var desc []map[string]any
 	for _, r := range runs {
+		checkCallers(c, config(false), r.A.Callers)
 		desc = append(desc, map[string]any{"part_suffix": r.Suffix, "families": r.A.Fams, "callers": r.A.Callers, "scope_lists": r.A.Scopes,
-			"missing_token": r.A.Missing, "max_depth": r.Depth, "refresh_off_too": r.Off})
+			"missing_token": r.A.Missing, "form_client_id": r.A.Cids, "channels": r.A.Chans, "cid_x_channel_product": r.A.Pairs,
+			"scope_lists_for_other_shapes": r.A.Lite, "registration_withdrawn_in_history": r.A.Lapse, "max_depth": r.Depth, "refresh_off_too": r.Off})
 	}
 	c.Extra("alphabet", desc)
 	for _, r := range runs {
